@@ -196,6 +196,15 @@ fn run_wake_case(line: &str) -> String {
             b'p' => ping.ping(),
             b'w' => signal.wakeup(),
             b'W' => cb_wakes.set(op[1..].parse().unwrap_or(1)),
+            b'T' => {
+                // a pending timer, due in <ms>: a wait that it bounds must still be cut short by a wake-up
+                let ms: u64 = op[1..].parse().unwrap_or(1000);
+                let _ = event_loop
+                    .handle()
+                    .insert_source(calloop::timer::Timer::from_duration(std::time::Duration::from_millis(ms)), |_, _, _| {
+                        calloop::timer::TimeoutAction::Drop
+                    });
+            }
             b'd' => {
                 let ms: u64 = op[1..].parse().unwrap_or(0);
                 let before = calls.get();
